@@ -37,3 +37,9 @@ package contextualizers
 //@   logged wdel
 //@   ensures hw.n == old(hw.n) + 2 && hw.arg0[old(hw.n)] == hash && hw.arg0[old(hw.n) + 1] == hash && hw.arg1[old(hw.n) + 1] == data
 //@   ensures le64.n == old(le64.n) + 1 && le64.arg2[old(le64.n)] == len(data) && le64.arg1[old(le64.n)] == hw.arg1[old(hw.n)] && len(hw.arg1[old(hw.n)]) == 8
+
+// C10: a rule-level cache_ttl, when given, is the TTL in force (0s switches caching off)
+//@ func (*genericContextualizer).WithConfig
+//@   props C10
+//@   ensures ret1 == nil && old(len(rawConfig)) != 0 && conf.CacheTTL != nil ==> unbox(ret0, *genericContextualizer).ttl == *conf.CacheTTL
+//@   ensures ret1 == nil && old(len(rawConfig)) != 0 && conf.CacheTTL == nil ==> unbox(ret0, *genericContextualizer).ttl == old(h.ttl)
